@@ -1479,6 +1479,21 @@ impl<'a> Model<'a> {
             } => self.exec_open(s, key, name, *mode, *handle, *len),
             StmtKind::Close(hs) => {
                 if let Some(r) = self.env_fault_failure(key) {
+                    // "CLOSE of one handle or of all makes the handles reusable": also when
+                    // the device spoils it (an implementation that flushes at CLOSE may see
+                    // that flush fail) - the error is raised, the handles are free
+                    if hs.is_empty() {
+                        let all: Vec<i32> = self.handles.keys().cloned().collect();
+                        for h in all {
+                            self.drop_handle(h);
+                        }
+                    } else {
+                        for h in hs {
+                            if (1..=255).contains(h) {
+                                self.drop_handle(*h);
+                            }
+                        }
+                    }
                     return r;
                 }
                 if hs.is_empty() {
